@@ -549,7 +549,7 @@ func (r *rewriter) post(c *astutil.Cursor) bool {
 				fatalf("%s: sync.%s is not supported by the simulator", r.site(n), n.Sel.Name)
 			}
 		case r.isPkg(n.X, "context"):
-			if n.Sel.Name == "WithTimeout" || n.Sel.Name == "WithDeadline" {
+			if n.Sel.Name == "WithTimeout" || n.Sel.Name == "WithDeadline" || n.Sel.Name == "WithCancel" {
 				c.Replace(ds(n.Sel.Name))
 				r.changed = true
 			}
